@@ -1,7 +1,150 @@
 import Driver.Common
-open Drv
+import KatdalModel.Model.Categorical
+open Np Drv Categorical
 
-/-- stub driver for C11: replaced when the property's model lands -/
-def step (_line : String) : String := "bad-op"
+namespace C11Drv
 
-def main : IO Unit := Drv.loop step
+def natList (s : String) : Option (List Nat) := if s = "-" then some [] else parseNatList s
+def intList (s : String) : Option (List Int) := if s = "-" then some [] else parseIntList s
+def showL (l : List Nat) : String := if l.isEmpty then "-" else showNatList l
+
+def showCat (c : Cat Nat) : String := s!"{showL c.uniq}|{showL c.idx}|{showL c.ev}"
+
+def parseCat (s : String) : Option (Cat Nat) :=
+  match s.splitOn "|" with
+  | [u, i, e] => do
+    let u ← natList u; let i ← natList i; let e ← natList e
+    pure { uniq := u, idx := i, ev := e }
+  | _ => none
+
+/-- `i:3` | `s:a:b:c` | `m:0110` | `l:1,2` (`l:-` = empty list) -/
+def parseKey (s : String) : Option Key :=
+  match s.splitOn ":" with
+  | ["i", v] => (v.toInt?).map Key.int
+  | ["s", a, b, c] => do
+    let a ← parseOptInt a; let b ← parseOptInt b; let c ← parseOptInt c
+    pure (Key.slice a b c)
+  | ["m", v] => (parseMask (if v = "-" then "" else v)).map Key.mask
+  | ["l", v] => (intList v).map Key.list
+  | _ => none
+
+def showOpt (l : List (Option Nat)) : String :=
+  if l.isEmpty then "-" else ",".intercalate (l.map fun o => match o with | some v => toString v | none => "_")
+
+def showOptB (l : List (Option Bool)) : String :=
+  if l.isEmpty then "-" else "".intercalate (l.map fun o => match o with | some true => "1" | some false => "0" | none => "_")
+
+structure St where
+  main : Cat Nat
+  parts : List (Cat Nat)
+
+def showSt (s : St) : String :=
+  "#".intercalate (showCat s.main :: s.parts.map showCat)
+
+def modifyPart (parts : List (Cat Nat)) (k : Nat) (f : Cat Nat → Except Err (Cat Nat)) :
+    Except Err (List (Cat Nat)) :=
+  match parts[k]? with
+  | none => .error .other
+  | some c => do
+    let c' ← f c
+    pure (parts.set k c')
+
+def cmpFn (op : String) (v : Nat) : Option (Nat → Bool) :=
+  match op with
+  | "eq" => some (fun x => x == v) | "ne" => some (fun x => x != v)
+  | "lt" => some (fun x => decide (x < v)) | "gt" => some (fun x => decide (x > v))
+  | "le" => some (fun x => decide (x ≤ v)) | "ge" => some (fun x => decide (x ≥ v))
+  | _ => none
+
+/-- one operation: new state and the reply -/
+def applyOp (st : St) (op : String) : St × String :=
+  let bad := (st, "bad-op")
+  let upd (r : Except Err (Cat Nat)) : St × String :=
+    match r with
+    | .ok c => let s' := { st with main := c }; (s', showSt s')
+    | .error e => (st, showErr e)
+  let updParts (r : Except Err (List (Cat Nat))) : St × String :=
+    match r with
+    | .ok ps => let s' := { st with parts := ps }; (s', showSt s')
+    | .error e => (st, showErr e)
+  match op.splitOn " " with
+  | ["get", k] =>
+    match parseKey k with
+    | some key => (st, match st.main.getitem key with
+        | .ok (.one v) => s!"o:{v}"
+        | .ok (.many vs) => s!"m:{showL vs}"
+        | .error e => showErr e)
+    | none => bad
+  | ["cmp", o, v] =>
+    match v.toNat? with
+    | some vv =>
+      match cmpFn o vv with
+      | some f => (st, showOptB (st.main.cmpPerDump f))
+      | none => bad
+    | none => bad
+  | ["perdump"] => (st, showOpt st.main.perDump)
+  | ["add", e, v] =>
+    match e.toNat?, (if v = "_" then some none else (v.toNat?).map some) with
+    | some e, some v => upd (st.main.add e v)
+    | _, _ => bad
+  | ["remove", v] =>
+    match v.toNat? with
+    | some v => upd (st.main.remove v)
+    | none => bad
+  | ["addun", segs, dist] =>
+    match natList segs, dist.toNat? with
+    | some segs, some d => upd (st.main.addUnmatched segs d)
+    | _, _ => bad
+  | ["align", segs] =>
+    match natList segs with
+    | some segs => upd (st.main.align segs)
+    | none => bad
+  | ["rr"] => upd st.main.removeRepeats
+  | ["part", segs] =>
+    match natList segs with
+    | some segs => updParts (st.main.partition segs)
+    | none => bad
+  | ["padd", k, e, v] =>
+    match k.toNat?, e.toNat?, (if v = "_" then some none else (v.toNat?).map some) with
+    | some k, some e, some v => updParts (modifyPart st.parts k (fun c => c.add e v))
+    | _, _, _ => bad
+  | ["premove", k, v] =>
+    match k.toNat?, v.toNat? with
+    | some k, some v => updParts (modifyPart st.parts k (fun c => c.remove v))
+    | _, _ => bad
+  | ["prr", k] =>
+    match k.toNat? with
+    | some k => updParts (modifyPart st.parts k (fun c => c.removeRepeats))
+    | none => bad
+  | ["concat", rep] =>
+    match concatenate st.parts (rep = "1") with
+    | .ok c => let s' : St := { main := c, parts := [] }; (s', showSt s')
+    | .error e => (st, showErr e)
+  | ["dup"] => let s' := { st with parts := [st.main, st.main] }; (s', showSt s')
+  | _ => bad
+
+/-- requests:
+    `new <values> <events>`                       -> uniq|idx|ev of `CategoricalData(values, events)`
+    `seq <uniq|idx|ev> :: op :: op …`             -> reply per op, joined by ` :: ` -/
+def step (line : String) : String :=
+  match line.splitOn " :: " with
+  | hd :: ops =>
+    match hd.splitOn " " with
+    | ["new", vals, evs] =>
+      match natList vals, natList evs with
+      | some v, some e => showCat (Cat.new v e)
+      | _, _ => "bad-op"
+    | ["seq", cat] =>
+      match parseCat cat with
+      | some c =>
+        let r := ops.foldl (fun (acc : St × List String) op =>
+          let (s', rep) := applyOp acc.1 op
+          (s', acc.2 ++ [rep])) (({ main := c, parts := [] } : St), [])
+        " :: ".intercalate r.2
+      | none => "bad-op"
+    | _ => "bad-op"
+  | [] => "bad-op"
+
+end C11Drv
+
+def main : IO Unit := Drv.loop C11Drv.step
